@@ -105,7 +105,7 @@ def bcast(vals, shape, to):
 # -- operands -------------------------------------------------------------------------------------------
 
 NUM_KINDS = ["pyint", "pyfloat", "npfloat", "npint", "arr0", "arr", "qdimless", "npfloat32", "npint32", "list", "qscaled", "pycomplex_real",
-             "npcomplex_real"]  # (the last two: a real number held in a complex type, e.g. complex(0.5, 0))
+             "npcomplex_real", "npfloat16"]  # (the last two: a real number held in a complex type, e.g. complex(0.5, 0))
 # dimensionless Quantities in a SCALED unit: the factor k written as (k / scale) [unit]; only (k, unit) pairs whose conversion to the unscaled
 # value is exact in doubles are used (so that the exact factor is not in doubt)
 SCALED_UNITS = {"percent": (u.percent, 100.0), "MHz/GHz": (u.MHz / u.GHz, 1000.0), "milli": (u.Unit(1e-3), 1000.0)}
@@ -134,6 +134,8 @@ def number_operand(draw, shape_of, max_abs_log2=6, nonzero=False, kinds=NUM_KIND
                         st.sampled_from([v for v in (0.5, 0.25, 1 / 3, 1e-3, 3.0, -1.0, 2.0, 7.0, 0.1, 2.0**-10) if abs(v) <= 2.0**max_abs_log2]))
         if kind == "npfloat32":
             gen = gen.map(lambda v: float(np.float32(v)))
+        if kind == "npfloat16":
+            gen = gen.map(lambda v: float(np.float16(v)) if np.isfinite(np.float16(v)) else 1.5)
         if kind in ("arr", "list"):
             shape = list(draw(st.sampled_from([(3,), (1,), (2, 2), (1, 3), (2, 1)])))
             # must broadcast with the phase shape
@@ -149,7 +151,7 @@ def number_operand(draw, shape_of, max_abs_log2=6, nonzero=False, kinds=NUM_KIND
         vals = [draw(gen) for _ in range(n)]
         if nonzero:
             vals = [v if abs(v) >= 2.0**-12 else 3.0 for v in vals]
-    if nonzero and kind == "npfloat32":
+    if nonzero and kind in ("npfloat32", "npfloat16"):
         vals = [v if abs(v) >= 2.0**-12 else 3.0 for v in vals]
     imag = bool(allow_imag and draw(st.integers(0, 6)) == 0 and kind in ("pyfloat", "arr", "arr0"))
     out = {"kind": kind, "vals": vals, "shape": shape, "imag": imag}
@@ -168,6 +170,8 @@ def mk_number(op):
         return np.int32(vals[0])
     if k == "npfloat32":
         return np.float32(vals[0])
+    if k == "npfloat16":
+        return np.float16(vals[0])
     if k == "pycomplex_real":
         return complex(float(vals[0]), 0.0)
     if k == "npcomplex_real":
@@ -192,7 +196,7 @@ def mk_number(op):
 
 
 def number_exact(op):
-    if op["kind"] in ("pyint", "npint", "pyfloat", "npfloat", "arr0", "qdimless", "npint32", "npfloat32", "qscaled", "pycomplex_real", "npcomplex_real"):
+    if op["kind"] in ("pyint", "npint", "pyfloat", "npfloat", "arr0", "qdimless", "npint32", "npfloat32", "qscaled", "pycomplex_real", "npcomplex_real", "npfloat16"):
         return [F(op["vals"][0])], []
     return [F(v) for v in op["vals"]], op["shape"]
 
@@ -244,7 +248,7 @@ def run_construct(case, stt):
 @st.composite
 def addsub_case(draw):
     p = draw(phase_spec(max_exp=51))
-    okind = draw(st.sampled_from(["phase", "phase", "pyint", "pyfloat", "npfloat", "arr", "qcycle", "arr0"]))
+    okind = draw(st.sampled_from(["phase", "phase", "pyint", "pyfloat", "npfloat", "arr", "qcycle", "arr0", "qfracphase", "qlongitude"]))
     q = draw(phase_spec(max_exp=51, allow_imag=False, shapes=((), tuple(p["shape"]), tuple(p["shape"][-1:]))))
     q["imag"] = p["imag"]
     if okind in ("pyint", "pyfloat", "npfloat", "arr0"):
@@ -270,6 +274,17 @@ def other_operand(q, okind):
         if q["imag"]:
             return np.complex128(complex(0, vals[0])), ex[:1]
         return np.float64(vals[0]), ex[:1]
+    if okind in ("qfracphase", "qlongitude") and not q["imag"]:
+        # other Angle subclasses as operands: the fractional part of a Phase (FractionalPhase), an astropy Longitude; their exact value is
+        # whatever the object holds after its own wrapping
+        import pulsarbat as pb
+        from astropy.coordinates import Longitude
+
+        fr = np.array(q["frac"], dtype=float).reshape(q["shape"])
+        obj = pb.Phase(np.zeros_like(fr), fr).frac if okind == "qfracphase" else Longitude(fr * u.cycle)
+        return obj, [F(float(v)) for v in np.ravel(obj.to_value(u.cycle))]
+    if okind in ("qfracphase", "qlongitude"):
+        okind = "qcycle"
     a = np.array(vals).reshape(q["shape"])
     if q["imag"]:
         a = a * 1j
@@ -634,9 +649,11 @@ SUBS = [
         "Phase(one number) / Phase(two numbers, unnormalised, scalars, NumPy scalars, arrays, cycle Quantities, Phase+number); non-trivial = "
         "|value| >= 2^33 with a non-zero fraction", quick=1500, thorough=40000),
     Sub("add_sub_unary", addsub_case(), run_addsub,
-        "phase +/- {Phase, int, float, NumPy scalar, 0-d, n-d broadcast array, cycle Quantity} in both orders, in-place and out= forms, real and "
-        "imaginary; negation, abs, fabs, positive; non-trivial = an operand with |count| >= 2^33 and a non-zero fraction", quick=2000,
-        thorough=60000, pieces_quick=3),
+        "phase +/- {Phase, int, float, NumPy scalar, 0-d, n-d broadcast array, cycle Quantity, FractionalPhase, astropy Longitude} in both orders, "
+        "in-place and out= forms, real and imaginary; negation, abs, fabs, positive; cases matching the open finding K3 (a Longitude as LEFT operand) "
+        "are excluded by construction and counted; non-trivial = an operand with |count| >= 2^33 and a non-zero fraction", quick=2000,
+        thorough=60000, pieces_quick=3,
+        known=lambda case: "K3" if (case["okind"] == "qlongitude" and case["op"] in ("radd", "rsub") and not case["p"]["imag"]) else None),
     Sub("mul_div", muldiv_case(), run_muldiv,
         "phase * k, k * phase, phase / k for k in {int, float, NumPy scalars, 0-d and n-d arrays, dimensionless Quantity, imaginary factors}, "
         "in-place and out= forms; (i a)(i b) = -ab; non-trivial = |count| >= 2^33 with non-zero fraction, or |result| >= 2^33", quick=2000,
